@@ -859,6 +859,16 @@ def call_method(it, recv, name, args, kwargs, node, fr):
         return arr_method(it, recv, name, args, kwargs, node, fr)
     if isinstance(recv, Rot):
         return rot_method(it, recv, name, args, kwargs, node)
+    if isinstance(recv, Seq) and name == "isin" and getattr(recv, "of_frame", None) is not None and args:
+        try:
+            v_ = pyval(args[0])
+            names = [v_] if isinstance(v_, str) else list(v_)
+        except NotConst:
+            names = None
+        if names is not None:
+            u = Unk(call("colmask", to_term(recv), to_term(args[0])))
+            u.colmask = (recv.of_frame, names)
+            return u
     if isinstance(recv, Seq):
         return seq_method(it, recv, name, args, kwargs, node, fr)
     if isinstance(recv, DictV):
@@ -889,6 +899,17 @@ def call_method(it, recv, name, args, kwargs, node, fr):
             d_ = Unk(call("unpack", base_t, const(1)))
             return Seq([u, d_], "tuple")
         return u
+    if isinstance(recv, Unk) and name == "isin" and getattr(recv, "of_frame", None) is not None and recv.term.op == "call" \
+            and recv.term.args[0] == "columns" and args:
+        # frame.columns.isin([...]): a column mask -- selects the named columns *in the table's own column order*
+        try:
+            names = list(pyval(args[0]))
+        except NotConst:
+            names = None
+        if names is not None:
+            u = Unk(call("colmask", recv.term, to_term(args[0])))
+            u.colmask = (recv.of_frame, names)
+            return u
     if isinstance(recv, Unk):
         it.record("call", "method:" + name, [recv] + args, dict(kwargs), node)
         if name == "reshape" and args:
